@@ -145,6 +145,14 @@ def main(tier, seed):
         for k in range(n_charts):
             chart = genchart.valid_chart(rng, profile)
             add_nested_state(chart, rng)
+            # a function defined by the statechart's own preamble that uses what the evaluator exposes (send, notify): such a
+            # context can be deep-copied but not pickled (the function belongs to no module)
+            helper = rng.random() < 0.15
+            if helper:
+                chart._preamble = (chart.preamble or '') + "\ndef emit(n):\n    send('e0', v=n)\n    notify('m0', w=n)\n    return True"
+                for t in rng.sample(list(chart._transitions), min(3, len(chart._transitions))):
+                    t.action = ((t.action + '\n') if t.action else '') + 'emit(x)'
+                stats['charts_with_a_preamble_function'] = stats.get('charts_with_a_preamble_function', 0) + 1
             running = rng.random() < 0.25
             evs = sorted({t.event for t in chart._transitions if t.event})
             script = [metam.random_op(rng, fail_bits=False, names=evs) for _ in range(rng.randint(6, 16))]
@@ -176,7 +184,7 @@ def main(tier, seed):
                     stats['old_entries_at_snapshots'] += len(st0['old'])
                     stats['memory_entries_at_snapshots'] += len(st0['memory'])
                     stats['delayed_pending_at_snapshots'] += sum(1 for t, _ in list(st0['iq']) + list(st0['eq']) if t > st0['time'])
-                    for kind in ('pickle', 'deepcopy'):
+                    for kind in (('deepcopy',) if helper else ('pickle', 'deepcopy')):
                         try:
                             cp = pickle.loads(pickle.dumps(orig.interp)) if kind == 'pickle' else copy.deepcopy(orig.interp)
                         except Exception as e:  # noqa
